@@ -144,7 +144,10 @@ def run_a(ctx, mask, kinds, pad, variant, cls, tag='grid'):
     try:
         t = C[cls](src, cmap, **real.get('ctor_kw', {}))
         if 'vars' in real:
-            t.var(**real['vars'])
+            if variant & 8:
+                t._vars.update(real['vars'])      # the attribute itself
+            else:
+                t.var(**real['vars'])             # the documented setter
         first = last = None
         if 'client_first' in scopes:
             first = rz.real(U.Obj('client_first', scopes['client_first']))
@@ -193,8 +196,8 @@ def run_a(ctx, mask, kinds, pad, variant, cls, tag='grid'):
                       detail={'source': src, 'expected': U.segments_text(exp),
                               'observed': short(out, 1500), 'expected_calls': model.trace,
                               'observed_calls': rec.calls(), 'sources': members})
-    if tag == 'grid' and mask in (0b1111111, 0b0101010) and cls == 'H' and kinds[0] == 'tmpl' \
-            and len(set(kinds)) == 1 and not pad:
+    if (ctx.shard % 2 == 0 and not ctx.samples and cls == 'H' and len(members) >= 3
+            and kinds[0] in ('call', 'tmpl') and len(set(kinds)) > 1):
         ctx.sample({'part': 'A', 'sources': members, 'kinds': list(kinds), 'template': src,
                     'output': out, 'calls': rec.calls()})
 
@@ -243,19 +246,19 @@ def configs_a(tier):
             i += 1
             pads = (0, 1) if tier == 'thorough' else ((i + k) & 1,)
             for pad in pads:
-                out.append((mask, kinds, pad, i % 8, 'H', 'grid'))
+                out.append((mask, kinds, pad, i % 16, 'H', 'grid'))
             if len(set(kinds)) == 1:
                 for pad in (0, 1):
-                    out.append((mask, kinds, pad, (i + pad) % 8, 'HTML', 'grid'))
-                    out.append((mask, kinds, pad, (i + pad + 3) % 8, 'String', 'grid'))
+                    out.append((mask, kinds, pad, (i + pad) % 16, 'HTML', 'grid'))
+                    out.append((mask, kinds, pad, (i + pad + 3) % 16, 'String', 'grid'))
         # falsy winner over every uniform assignment of the lower sources
         for fk in FALSY:
             for other in KINDS3:
                 i += 1
                 kinds = (fk,) + (other,) * (k - 1)
-                out.append((mask, kinds, i & 1, i % 8, 'H', 'falsy'))
+                out.append((mask, kinds, i & 1, i % 16, 'H', 'falsy'))
                 if tier == 'thorough':
-                    out.append((mask, kinds, 1 - (i & 1), (i + 5) % 8, 'HTML', 'falsy'))
+                    out.append((mask, kinds, 1 - (i & 1), (i + 5) % 16, 'HTML', 'falsy'))
     return out
 
 
@@ -295,6 +298,10 @@ def build_nest(kinds, vk):
             ps.append(P('miss', 'b%d' % lv))
         ps += [P('miss', 'sequence-item'), P('miss', 'sequence-index'),
                P('miss', 'error_type'), P('miss', 'error_value')]
+        if 'only' not in kinds:
+            # error_tb is free text: only its presence is probed (not under `with only`,
+            # where hiding of outer names is not asserted)
+            ps.append(U.If('error_tb', [T('+tb')], [T('-tb')]))
         for lv in range(1, D + 1):
             if kinds[lv - 1] == 'if':
                 # inside a `with only` nested in this if-block the cached condition is an
@@ -428,9 +435,10 @@ def run_b(ctx, kinds, vk, bs):
                       detail={'source': src, 'expected': U.segments_text(exp),
                               'observed': short(out, 3000), 'expected_calls': model.trace[:60],
                               'observed_calls': rec.calls()[:60]})
-    if tuple(kinds) in (('in', 'let'), ('if', 'try')) and vk == 'call' and bs == 'kw':
+    if ctx.shard % 2 == 1 and not ctx.samples and len(kinds) == 2 and len(set(kinds)) == 2:
         ctx.sample({'part': 'B', 'nest': list(kinds), 'value_kind': vk, 'base_source': bs,
-                    'template': src, 'output': out, 'calls': rec.calls()})
+                    'template': short(src, 1200), 'output': short(out, 1500),
+                    'expected': short(U.segments_text(exp), 1500), 'calls': rec.calls()[:40]})
 
 
 def configs_b(tier):
@@ -441,10 +449,8 @@ def configs_b(tier):
         for kinds in itertools.product(NEST_KINDS, repeat=d):
             for vk in KINDS3:
                 i += 1
-                if tier == 'thorough' and d < 3:
+                if tier == 'thorough':
                     sources = BASE_SOURCES
-                elif tier == 'thorough':
-                    sources = [BASE_SOURCES[i % 6], BASE_SOURCES[(i + 3) % 6]]
                 else:
                     sources = [BASE_SOURCES[i % 6]] if d == 2 else BASE_SOURCES
                 for bs in sources:
@@ -487,7 +493,7 @@ def run(ctx, spec):
             k = bin(mask).count('1')
             kinds = tuple(rng.choice(allk) for _ in range(k))
             ctx.count('A:seeded mixed assignments')
-            run_a(ctx, mask, kinds, rng.randint(0, 1), rng.randint(0, 7),
+            run_a(ctx, mask, kinds, rng.randint(0, 1), rng.randint(0, 15),
                   rng.choice(['H', 'H', 'HTML']), 'seeded')
         for i, cfg in enumerate(configs_b(ctx.tier)):
             if i % ctx.nshards == ctx.shard:
@@ -548,5 +554,3 @@ def replay(ctx, rep):
         run_a(ctx, c['mask'], tuple(c['kinds']), c['pad'], c['variant'], c['cls'], 'replay')
     else:
         run_b(ctx, tuple(c['kinds']), c['vk'], c['bs'])
-    for v in ctx.violations:
-        print(v['what'])
